@@ -1292,10 +1292,14 @@ def seq_len(x):
         return len(x)
     if isinstance(x, Arr) and x.ndim == 1:
         return x.shape[0]
+    if isinstance(x, SymList):
+        return x.length
     return None
 
 
 def seq_item(x, i):
+    if isinstance(x, SymList):
+        return x.item(i)
     if isinstance(x, (tuple, list)):
         if isinstance(i, int):
             return x[i]
